@@ -261,7 +261,8 @@ func (api *API) mapEncodeStructFields(
 		switch {
 		case sField.settings.ts.fieldKey != nil:
 			err = setUniqueKey(obj, *sField.settings.ts.fieldKey, eleOut)
-		case sField.settings.inlined:
+		case sField.settings.inlined && DeRefPointer(sField.fType).Kind() != reflect.Map:
+			// (a map can not be inlined: its entries would be indistinguishable from the fields of the struct)
 			castedEleOut, ok := eleOut.(*orderedmap.OrderedMap)
 			if !ok {
 				return ierrors.Errorf("failed to cast inlined struct field %s to map", sField.name)
